@@ -25,7 +25,7 @@ func TestC10NeverWedges(t *testing.T) {
 
 		// --- the read routine's state when the failure strikes ---
 		state := rapid.SampledFrom([]string{"parked-in-read", "holding-qos1", "holding-qos2", "holding-big", "own-ack-write-parked",
-			"pubrel-write-parked", "dialing", "handshake", "resending", "foreign-writer-parked", "foreign-writer-parked", "skipping-dup-big", "holding-big-tail-outstanding"}).Draw(rt, "readerState")
+			"pubrel-write-parked", "dialing", "handshake", "resending", "foreign-writer-parked", "foreign-writer-parked", "skipping-dup-big", "holding-big-tail-outstanding", "connack-arrives-under-slow-save"}).Draw(rt, "readerState")
 		h.Act("reader state %s", state)
 		var pending []*sim.Call
 		silentHandshake := false
@@ -40,6 +40,27 @@ func TestC10NeverWedges(t *testing.T) {
 			h.ScriptDial(sim.DialOutcome{Connack: &sim.ConnackPolicy{Kind: sim.ConnackHold}})
 			h.App.Step()
 			h.SettleReader("handshake outstanding")
+		case "connack-arrives-under-slow-save":
+			// the handshake completes while a publisher is inside a slow
+			// Persistence.Save (it holds its sequence lock; connect wants it)
+			h.ScriptDial(sim.DialOutcome{Connack: &sim.ConnackPolicy{Kind: sim.ConnackHold}})
+			h.App.Step()
+			h.SettleReader("handshake outstanding")
+			h.Store.ParkNext('S')
+			slow := h.pub(byte(rapid.IntRange(1, 2).Draw(rt, "slowLevel")), false)
+			if h.Store.Parked() == 0 {
+				h.Store.ClearParks()
+			}
+			if cur := h.Current(); cur != nil {
+				h.Act("release CONNACK")
+				cur.ReleaseConnack(0)
+			}
+			h.PollQuiet(quiet, func() bool { return false })
+			h.Act("the slow Save completes")
+			h.Store.Release()
+			h.Store.ClearParks()
+			h.SettleCall(slow)
+			h.SettleReader("connect after the slow Save")
 		case "resending":
 			h.pub(1, false)
 			h.pub(2, false)
